@@ -173,3 +173,16 @@ Example first_match_example :
   verify_authenticity (Some [lookalike; ca]) [real; ca; ca] = Trusted 1 /\
   verify_authenticity (Some [lookalike]) [real; ca] = AuthErr.
 Proof. split; reflexivity. Qed.
+
+(* ---- the trust store is monotone for acceptance and antitone for refusal: a chain trusted under
+   a store stays trusted under every larger store; a chain refused under a store is refused
+   under every smaller one ---- *)
+Theorem trust_monotone chain trust trust' :
+  (forall t, In t trust -> In t trust') ->
+  (exists j, verify_authenticity (Some chain) trust = Trusted j) ->
+  (exists j, verify_authenticity (Some chain) trust' = Trusted j).
+Proof.
+  intros Hsub H. apply verify_authenticity_some_iff in H. apply verify_authenticity_some_iff.
+  destruct H as [c [Hc Ht]]. exists c. split; [exact Hc|].
+  unfold in_trust in *. destruct Ht as [t [Hin Heq]]. exists t. split; [apply Hsub; exact Hin|exact Heq].
+Qed.
